@@ -8,6 +8,7 @@ CONSTANTS
   MaxAcc = 3
   MaxAfterEnd = 1
   EarlyDestroy = FALSE
+  MaxObj = 0
   PostIncMoves = FALSE
   Threaded = TRUE
 INVARIANTS TypeOK SameSequence PayloadIntact SingleEOS ExceptionAtPosition ArgDelivered LocalsDestroyedOnce BlockedOnlyOnPending RecordClean TerminalOK
